@@ -55,6 +55,7 @@ func init() {
 		zz + "Symbolic": func(fr *frame, a []value) value { return true },
 		zz + "Quiesce":  func(fr *frame, a []value) value { return fr.i.sched.quiesce() },
 		zz + "Param":    zzParam,
+		zz + "Baseline": func(fr *frame, a []value) value { return nil },
 		zz + "Gate": func(fr *frame, a []value) value {
 			fr.i.ps.events = append(fr.i.ps.events, "gate "+fr.cstr(a[0]))
 			return nil
@@ -62,6 +63,7 @@ func init() {
 		zz + "Frozen":   zzFrozen,
 		zz + "Concrete": zzConcrete,
 		zz + "Yield":    func(fr *frame, a []value) value { fr.i.sched.block(func() bool { return true }, "zzsym.Yield"); return nil },
+		zz + "Preempt":  func(fr *frame, a []value) value { fr.i.sched.preemptPoint("zzsym.Preempt"); return nil },
 
 		// ---- strings / bytes kernels implemented in assembly or with unsafe
 		"internal/bytealg.IndexByteString": func(fr *frame, a []value) value { return strings.IndexByte(fr.cstr(a[0]), fr.cbyte(a[1])) },
